@@ -11,6 +11,7 @@ import (
 	"crypto/x509/pkix"
 	"encoding/asn1"
 	"encoding/hex"
+	"encoding/json"
 	"fmt"
 	"math/big"
 	"runtime/debug"
@@ -216,6 +217,93 @@ type p7msg struct {
 	signers, recipients []*p7ent
 	roots               *smx509.CertPool
 	caSerial            string
+	frozen              map[string]*p7ent // replay of a stored failure: the keys, certificates and message of the failing run
+}
+
+// get returns the pool entry id: from the frozen set when a stored failure is replayed, else from the process pool.
+func (m *p7msg) get(id, serial string) *p7ent {
+	if m.frozen != nil {
+		e, ok := m.frozen[id]
+		if !ok {
+			panic("harness: pkcs7: frozen trace lacks key " + id)
+		}
+		return e
+	}
+	return p7get(id, serial, m.caSerial)
+}
+
+// p7freeze serialises the message and every pool entry the trace touched, so that ./check C16 --replay re-runs the
+// failing case on the same bytes (signatures, IVs and keys are random: a rebuilt message would be a different one).
+func p7freeze(m *p7msg, last Step, withDer bool) string {
+	type fe struct{ ID, Serial, Key, Cert string }
+	var out struct {
+		Der  string
+		Ents []fe
+	}
+	if withDer { // a failure of an UNALTERED message lies in the builder: then only the keys are kept and the message is built again
+		out.Der = hx(m.der)
+	}
+	seen := map[string]bool{}
+	add := func(e *p7ent) {
+		if e == nil || seen[e.id] {
+			return
+		}
+		seen[e.id] = true
+		k, err := smx509.MarshalPKCS8PrivateKey(e.key)
+		if err != nil {
+			return
+		}
+		out.Ents = append(out.Ents, fe{e.id, e.serial, hx(k), hx(e.cert.Raw)})
+	}
+	for _, e := range m.signers {
+		add(e)
+	}
+	for _, e := range m.recipients {
+		add(e)
+	}
+	for _, k := range []string{"cert", "key"} {
+		if last.Has(k) {
+			add(m.lookup(last.Str(k)))
+		}
+	}
+	add(m.lookup("CA"))
+	b, _ := json.Marshal(out)
+	return string(b)
+}
+
+func (m *p7msg) lookup(id string) *p7ent {
+	if m.frozen != nil {
+		return m.frozen[id]
+	}
+	p7mu.Lock()
+	defer p7mu.Unlock()
+	return p7ents[id]
+}
+
+func p7thaw(m *p7msg, v interface{}) {
+	b, _ := json.Marshal(v)
+	var in struct {
+		Der  string
+		Ents []struct{ ID, Serial, Key, Cert string }
+	}
+	if err := json.Unmarshal(b, &in); err != nil {
+		panic("harness: pkcs7: bad frozen record: " + err.Error())
+	}
+	m.frozen = map[string]*p7ent{}
+	for _, e := range in.Ents {
+		kb, _ := hex.DecodeString(e.Key)
+		cb, _ := hex.DecodeString(e.Cert)
+		k, err := smx509.ParsePKCS8PrivateKey(kb)
+		if err != nil {
+			panic("harness: pkcs7: frozen key " + e.ID + ": " + err.Error())
+		}
+		c, err := smx509.ParseCertificate(cb)
+		if err != nil {
+			panic("harness: pkcs7: frozen certificate " + e.ID + ": " + err.Error())
+		}
+		m.frozen[e.ID] = &p7ent{id: e.ID, serial: e.Serial, key: k.(crypto.Signer), cert: c}
+	}
+	m.der, _ = hex.DecodeString(in.Der)
 }
 
 // p7build runs the library's builders as the build step says. An error here is a reply of the library.
@@ -226,26 +314,32 @@ func p7build(st Step) (*p7msg, error) {
 	m.caSerial = caSerial
 	sm, attrs := st.Bool("sm"), st.Bool("attrs")
 	m.roots = smx509.NewCertPool()
+	if st.Has("frozen") {
+		p7thaw(m, st["frozen"])
+	}
 	type sg struct {
 		e    *p7ent
 		dalg string
 	}
 	var sgs []sg
 	for _, r := range p7recs(st, "signers") {
-		e := p7get(r["id"].(string), r["serial"].(string), caSerial)
+		e := m.get(r["id"].(string), r["serial"].(string))
 		sgs = append(sgs, sg{e, r["dalg"].(string)})
 		m.signers = append(m.signers, e)
 		if e.id == "SC" {
-			m.roots.AddCert(p7get("CA", caSerial, caSerial).cert)
+			m.roots.AddCert(m.get("CA", caSerial).cert)
 		} else {
 			m.roots.AddCert(e.cert)
 		}
 	}
 	var rcerts []*smx509.Certificate
 	for _, r := range p7recs(st, "recips") {
-		e := p7get(r["id"].(string), r["serial"].(string), caSerial)
+		e := m.get(r["id"].(string), r["serial"].(string))
 		m.recipients = append(m.recipients, e)
 		rcerts = append(rcerts, e.cert)
+	}
+	if m.frozen != nil && len(m.der) > 0 {
+		return m, nil // the stored message is used as it is
 	}
 	var err error
 	switch m.kind {
@@ -287,13 +381,13 @@ func p7build(st Step) (*p7msg, error) {
 			sd.SetDigestAlgorithm(p7digestOID(g.dalg))
 			switch {
 			case attrs && g.e.id == "SC":
-				err = sd.AddSignerChain(g.e.cert, g.e.key, []*smx509.Certificate{p7get("CA", caSerial, caSerial).cert}, cfg)
+				err = sd.AddSignerChain(g.e.cert, g.e.key, []*smx509.Certificate{m.get("CA", caSerial).cert}, cfg)
 			case attrs:
 				err = sd.AddSigner(g.e.cert, g.e.key, cfg)
 			default:
 				err = sd.SignWithoutAttr(g.e.cert, g.e.key, cfg)
 				if err == nil && g.e.id == "SC" {
-					sd.AddCertificate(p7get("CA", caSerial, caSerial).cert)
+					sd.AddCertificate(m.get("CA", caSerial).cert)
 				}
 			}
 			if err != nil {
@@ -343,7 +437,7 @@ func p7build(st Step) (*p7msg, error) {
 		for _, g := range sgs {
 			sed.SetDigestAlgorithm(p7digestOID(g.dalg))
 			if g.e.id == "SC" {
-				err = sed.AddSignerChain(g.e.cert, g.e.key, []*smx509.Certificate{p7get("CA", caSerial, caSerial).cert})
+				err = sed.AddSignerChain(g.e.cert, g.e.key, []*smx509.Certificate{m.get("CA", caSerial).cert})
 			} else {
 				err = sed.AddSigner(g.e.cert, g.e.key)
 			}
@@ -664,16 +758,22 @@ func p7adapter(t *Trace, env *Env) *Mismatch {
 					return p7openVerify(i, st, m, a, ref, exp)
 				}
 			}
+			hard := func(mm *Mismatch) *Mismatch {
+				if m.frozen == nil {
+					mm.Note += "\nFROZEN:" + p7freeze(m, st, altered)
+				}
+				return mm
+			}
 			if !altered {
 				if mm := run(nil); mm != nil {
-					return mm
+					return hard(mm)
 				}
 				continue
 			}
 			for k := range alts {
 				if mm := run(&alts[k]); mm != nil {
 					if mm.Kind != "pred" {
-						return mm
+						return hard(mm)
 					}
 					if soft == nil {
 						soft = mm
@@ -777,8 +877,8 @@ func p7verify(i int, st Step, m *p7msg, a *p7alt, ref []p7signer, exp []byte) *M
 
 func p7open(i int, st Step, m *p7msg, a *p7alt, exp []byte) *Mismatch {
 	der, _, note := p7apply(m, a)
-	ce := p7get(st.Str("cert"), st.Str("certserial"), m.caSerial)
-	ke := p7get(st.Str("key"), st.Str("keyserial"), m.caSerial)
+	ce := m.get(st.Str("cert"), st.Str("certserial"))
+	ke := m.get(st.Str("key"), st.Str("keyserial"))
 	var pt []byte
 	var err error
 	switch {
@@ -848,8 +948,8 @@ func p7openVerify(i int, st Step, m *p7msg, a *p7alt, ref []p7signer, exp []byte
 	if trust {
 		pool = m.roots
 	}
-	ce := p7get(st.Str("cert"), st.Str("certserial"), m.caSerial)
-	ke := p7get(st.Str("key"), st.Str("keyserial"), m.caSerial)
+	ce := m.get(st.Str("cert"), st.Str("certserial"))
+	ke := m.get(st.Str("key"), st.Str("keyserial"))
 	var pt []byte
 	p, err := pkcs7.Parse(der)
 	if err == nil {
